@@ -168,14 +168,14 @@ theorem recSpec_bvComp {src : Mgr} (hsrc : Inv src) (addr : Nid → Nat) (same :
     RecSpec src addr same ⟨NT.BV_COMP, [x, y], .nums [1]⟩ i :=
   recSpec_create hsrc addr same rfl (fun g => by simp +decide [reconstruct, mkBVComp])
 
-theorem recSpec_bvConst {src : Mgr} (hsrc : Inv src) (addr : Nid → Nat) (same : Bool) {v w : Nat} (h : v < 2 ^ w) (i : Nid) :
+theorem recSpec_bvConst {src : Mgr} (hsrc : Inv src) (addr : Nid → Nat) (same : Bool) {v w : Nat} (hw : w ≠ 0) (h : v < 2 ^ w) (i : Nid) :
     RecSpec src addr same ⟨NT.BV_CONSTANT, [], .bv v w⟩ i :=
   recSpec_create hsrc addr same rfl (fun g => by
     have h1 : ¬ ((v : Int) < 0) := by omega
     have h2 : ¬ ((v : Int) ≥ 2 ^ w) := by
       have : ((2 ^ w : Nat) : Int) = (2 : Int) ^ w := by simp
       omega
-    simp +decide [reconstruct, mkBV, h1, h2])
+    simp +decide [reconstruct, mkBV, hw, h1, h2])
 
 /-- a primitive that returns the node of the (reference-free) source content -/
 theorem prim_copy {src tgt : Mgr} (hsrc : Inv src) {c : Content} {i : Nid}
@@ -499,7 +499,7 @@ inductive NormalC (src : Mgr) : Content → Prop
   | strConcat (a b : Nid) (t : List Nid) : NormalC src ⟨NT.STR_CONCAT, a :: b :: t, .none⟩
   | algebraic (tag : String) : NormalC src ⟨NT.ALGEBRAIC_CONSTANT, [], .alg tag⟩
   | bvComp (x y : Nid) : NormalC src ⟨NT.BV_COMP, [x, y], .nums [1]⟩
-  | bvConst {v w : Nat} (h : v < 2 ^ w) : NormalC src ⟨NT.BV_CONSTANT, [], .bv v w⟩
+  | bvConst {v w : Nat} (hw : w ≠ 0) (h : v < 2 ^ w) : NormalC src ⟨NT.BV_CONSTANT, [], .bv v w⟩
   | real (q : Rat) : NormalC src ⟨NT.REAL_CONSTANT, [], .rat q⟩
   | int (n : Int) : NormalC src ⟨NT.INT_CONSTANT, [], .int n⟩
   | str (x : String) : NormalC src ⟨NT.STR_CONSTANT, [], .str x⟩
@@ -520,7 +520,7 @@ theorem recSpec_of_normal {src : Mgr} (hsrc : Inv src) (addr : Nid → Nat) (sam
   | strConcat a b t => exact recSpec_strConcat hsrc addr same a b t i
   | algebraic tag => exact recSpec_algebraic hsrc addr same tag i
   | bvComp x y => exact recSpec_bvComp hsrc addr same x y i
-  | bvConst h => exact recSpec_bvConst hsrc addr same h i
+  | bvConst hw h => exact recSpec_bvConst hsrc addr same hw h i
   | real q => exact recSpec_real hsrc addr same q i
   | int n => exact recSpec_int hsrc addr same n i
   | str x => exact recSpec_str hsrc addr same x i
